@@ -424,6 +424,11 @@ def assemble(ub):
                 if fs.name in em.stubs:
                     ret, atys = em.stubs[fs.name]
                     sig = '%s %s(%s)' % (ret, fs.name, ', '.join('%s a%d' % (t, i) for i, t in enumerate(atys)) or 'void')
+                elif getattr(fs, 'optional', False):
+                    # the stub is not reached in this tree: its event counter exists and stays 0
+                    if us.counters and fs.name.startswith('stub__'):
+                        L.append('unsigned g_cnt_%s;' % fs.name[len('stub__'):])
+                    continue
                 else:
                     raise Undecided('sidecar-binding-broken', 'assume-contract %s: no such stub is reached and no signature given' % fs.name)
             L.append(sig)
